@@ -150,6 +150,38 @@ theorem kv_crash_safe (readable : Option Bytes → Prop) (fs : FS) (f h : List C
   · show readable (crashState f (tmpName f h) data fs saveOps k t f); rw [e]; exact hold
   · show readable (crashState f (tmpName f h) data fs saveOps k t f); rw [e]; exact hnew
 
+/-! ### first-time creation of a wallet file (CreateWallet → loadWallet)
+
+The file does not exist yet, so nothing may be assumed about `fs f`: if `loadWallet` (directly or
+through a helper) probes with `file.IsWritable` before saving, the probe's `open(O_CREAT)` is part
+of the operation list and must itself be crash safe. -/
+
+def createOps : List FsOp :=
+  (if savers.lookup "loadWallet" = some true then probeOps else []) ++ saveOps
+
+theorem createOps_safe : safeSeq createOps = true := by decide
+
+/-- creating a wallet: after a crash at any point the new file is absent (or whatever was there) or
+complete — never an empty or partial `.wlt` that would stop `wallet.NewService` -/
+theorem crash_safe_create (fs : FS) (f h : List Char) (data : Bytes) (k t : Nat) :
+    let fs' := crashState f (tmpName f h) data fs createOps k t
+    fs' f = fs f ∨ fs' f = some data :=
+  (safeSeq_sound (tmp_distinct f h) createOps createOps_safe k t).1
+
+theorem startup_ok_create (Start : FS → Prop)
+    (hdep : ∀ a b : FS, (∀ q, Visible q → a q = b q) → (Start a ↔ Start b))
+    (fs : FS) (f h : List Char) (hh : HexName h) (data : Bytes) (k t : Nat)
+    (hold : Start fs) (hnew : Start (saved fs f data)) :
+    Start (crashState f (tmpName f h) data fs createOps k t) := by
+  rcases view_of_good (safeSeq_sound (tmp_distinct f h) createOps createOps_safe k t) (tmp_invisible f h hh) with e | e
+  · exact (hdep _ _ e).mpr hold
+  · exact (hdep _ _ e).mpr hnew
+
+-- a probe that creates the file first is NOT safe for a file that does not exist yet
+example : safeSeq (.touch .target :: [.trunc .tmp, .append .tmp, .rename .tmp .target]) = false := by decide
+example : (crashState exF (tmpName exF exH) [7] (fun _ => none)
+    (.touch .target :: [.trunc .tmp, .append .tmp, .rename .tmp .target]) 1 0) exF = some [] := by decide
+
 /-! ### non-vacuity: a concrete directory, a concrete save, a concrete crash -/
 
 def exF : Path := "a.wlt".toList
